@@ -28,9 +28,10 @@ def run(tier, seed):
     proof = [o for o in rep.obs if o.kind == "proof"]
     rep.rule = "E1: one VC per (class, method, path, clause) incl. loop-invariant init / preservation; E3: random reactant/product/TS triples over the skeleton corpus; distinct_nontrivial = distinct triples"
     rep.trusted_base = ["pyvc encoding + symbolic heap", "z3 5.1"]
-    rep.assumptions = ["termination of the loops is not proved", "from_graphs / reactant / product are covered by the bounded part only",
+    rep.assumptions = ["termination of the loops is not proved", "from_graphs is covered by the bounded part only (it zips two sequences of the argument graphs: outside the container model)",
+                       "reactant()/product() of StereoCondensedReactionGraph are proved under the pre-condition that a bond stereo change of that role sits on a bond of that side (what from_graphs establishes)",
                        "'reversing twice restores an identical graph' follows from the proved contract of reverse_reaction (the role swap is an involution on the views); it is additionally evaluated by the bounded part",
                        "assumed contract of copy.deepcopy (reverse_reaction starts from self.copy())"]
-    rep.explanation = f"{len(proof)} proof obligations on the three role queries and on reverse_reaction of both classes; decomposition is bounded (coverage.bounded_groups)"
+    rep.explanation = f"{len(proof)} proof obligations on the three role queries and on reverse_reaction / reactant / product of both classes; from_graphs is bounded (coverage.bounded_groups)"
     rep.samples = [o.name for o in proof[:: max(1, len(proof) // 6)]][:6]
     return rep, t0
